@@ -194,5 +194,9 @@ func (s *schedule) next(c *gen.Ctx) (dt int64, absent []string, ev []proto.Evide
 			}
 		}
 	}
+	if s.cfg.Evid && c.H > 5 && s.rng.Intn(14) == 0 {
+		v := s.w.Vals[1+s.rng.Intn(2)]
+		ev = append(ev, proto.EvidenceSpec{Validator: hist.HexAddr(v.ValAddr.String()), Height: c.H - 2})
+	}
 	return
 }
